@@ -1,4 +1,4 @@
-(* C09 — property theorems (statements only; proofs are in Proofs_*.v). *)
+(* C09 — property theorems for the code as it is after fix 1f61a03 (statements only; proofs in Proofs_*.v). *)
 From Sdns Require Import Common.Base Gen.C09 C09.Model C09.Proofs_Maps C09.Proofs_Rev C09.Proofs_Step C09.Proofs_Refute C09.Proofs_Prov C09.Proofs_Thm C09.Proofs_Hist.
 Open Scope N_scope.
 
@@ -13,96 +13,11 @@ Theorem unauthenticated_changes_nothing :
     let r := autota tag live cfg d now (FResp keys sigs) fl in
     let r0 := autota tag live cfg d now FErr fl in
     r_disk r = d /\ r_writes r = [] /\ r_revoked r = [] /\ r_live r = r_live r0 /\
-    (f_tread fl <> TRCorrupt -> r_live r = if is_nil live then live else candidate tag live cfg d now fl).
+    (f_tread fl = TROk -> f_sread fl = false -> r_live r = if is_nil live then live else candidate tag live cfg d now fl).
 Proof. exact unauthenticated_changes_nothing_lemma. Qed.
 Print Assumptions unauthenticated_changes_nothing.
 
-(* FULL STATEMENT (revocation_permanent): once a run accepted the revocation of material m
-   and at least one of its two file replacements landed, no key of material m is in the live
-   set in ANY later state — after restarts, crashes after any prefix of the replacements,
-   any configuration, any tag function, any read/write fault sequence.
-   The faithful model REFUTES it in three ways (below); what is proved is the statement with
-   (a) observation points after a completed AutoTA run (not in the window between NewResolver
-   and the first run) and (b) tolerable read faults: the tombstone file is never "unreadable"
-   (open error other than ENOENT), and the state file is readable whenever it holds the only
-   record of m's revocation.  Write faults, crash points, configurations, responses, clocks and
-   the tag function are unrestricted.  The disk invariant [durable] holds at every later point,
-   including inside the restart window and after every crash prefix. *)
-Theorem revocation_permanent_partial :
-  forall (tag : key -> N) (m : N) (s : sys) now fe fl,
-    In m (r_revoked (run_of tag s now fe fl)) ->
-    forall s1,
-    ((s1 = step tag s (ERun now fe fl) /\ r_writes (run_of tag s now fe fl) <> []) \/
-     (exists k cfg', s1 = step tag s (ECrash now fe fl k cfg') /\ firstn k (r_writes (run_of tag s now fe fl)) <> [])) ->
-    forall h, hist_ok tag m s1 h ->
-      durable m (s_disk (exec tag s1 h)) /\
-      (forall h' now' fe' fl' key, h = h' ++ [ERun now' fe' fl'] ->
-         In key (s_live (exec tag s1 h)) -> k_mat key <> m).
-Proof. exact revocation_permanent_partial_lemma. Qed.
-Print Assumptions revocation_permanent_partial.
-
-(* F2: restart window *)
-Theorem revocation_permanent_refuted :
-  exists tag s now fe fl h key,
-    In 1 (r_revoked (run_of tag s now fe fl)) /\ length (r_writes (run_of tag s now fe fl)) = 2%nat /\
-    In key (s_live (exec tag (step tag s (ERun now fe fl)) h)) /\ k_mat key = 1.
-Proof. exact revocation_permanent_refuted_restart_window. Qed.
-Print Assumptions revocation_permanent_refuted.
-
-(* unreadable tombstones do not fail closed *)
-Theorem unreadable_tombstones_fails_closed_refuted :
-  exists tag s now fe fl now' fe' fl' key,
-    In 1 (r_revoked (run_of tag s now fe fl)) /\ length (r_writes (run_of tag s now fe fl)) = 2%nat /\
-    f_tread fl' = TRUnreadable /\
-    In key (s_live (exec tag (step tag s (ERun now fe fl)) [ERun now' fe' fl'])) /\ k_mat key = 1.
-Proof. exact revocation_permanent_refuted_unreadable_tombstones. Qed.
-Print Assumptions unreadable_tombstones_fails_closed_refuted.
-
-(* a state-file read fault while the marker is the only record loses the revocation *)
-Theorem revocation_marker_lost_on_state_read_fault_refuted :
-  exists tag s now fe fl now' fe' fl' key,
-    In 1 (r_revoked (run_of tag s now fe fl)) /\ length (r_writes (run_of tag s now fe fl)) = 1%nat /\
-    f_sread fl' = true /\ f_tread fl' = TROk /\
-    let s2 := exec tag (step tag s (ERun now fe fl)) [ERun now' fe' fl'; ERun (now' + 1)%Z fe' no_faults] in
-    In key (s_live s2) /\ k_mat key = 1.
-Proof. exact revocation_permanent_refuted_state_read_fault. Qed.
-Print Assumptions revocation_marker_lost_on_state_read_fault_refuted.
-
-(* both writes fail in a run that accepted a revocation: the trust set is cleared *)
-Theorem dual_write_failure_fails_closed :
-  forall (tag : key -> N) live cfg d now fe fl,
-    f_twrite fl = true -> f_swrite fl = true ->
-    let r := autota tag live cfg d now fe fl in
-    r_revoked r <> [] -> r_live r = [] /\ r_disk r = d /\ r_writes r = [].
-Proof. exact dual_write_failure_fails_closed_lemma. Qed.
-Print Assumptions dual_write_failure_fails_closed.
-
-(* a tombstone file that opens but does not decode: trust set cleared, nothing written *)
-Theorem corrupt_tombstones_fails_closed :
-  forall (tag : key -> N) live cfg d now fe fl,
-    f_tread fl = TRCorrupt ->
-    let r := autota tag live cfg d now fe fl in
-    r_live r = [] /\ r_disk r = d /\ r_writes r = [] /\ r_out r = OPersistence.
-Proof. exact corrupt_tombstones_fails_closed_lemma. Qed.
-Print Assumptions corrupt_tombstones_fails_closed.
-
-(* F4: with colliding key tags a key becomes trusted although its material was present in
-   only one accepted refresh *)
-Theorem new_key_needs_30d_refuted :
-  exists tag cfg h key,
-    let s := exec tag (mk_sys cfg cfg empty_disk) h in
-    forallb (fun e => match e with ERun _ (FResp _ sigs) fl => existsb (fun g => s_ok g && (s_mat g =? 1)) sigs | _ => false end) h = true /\
-    ~ In key cfg /\ In key (s_live s) /\
-    length (filter (contains_mat (k_mat key)) h) = 1%nat /\ length h = 4%nat.
-Proof. exact Proofs_Refute.new_key_needs_30d_refuted. Qed.
-Print Assumptions new_key_needs_30d_refuted.
-
-(* A response authenticated only by revoked keys (pass 1 fails, the revoked-bootstrap pass
-   succeeds) can do nothing but complete those revocations: no key enters the live set; every
-   entry of a written state map is an entry of the pre-fetch map or the Revoked form (stamped
-   now) of a trusted entry whose REVOKE-flagged, self-signed form is in the response; every
-   written tombstone is an old one or that of such a key.  No AddPend seeding, no promotion,
-   no Missing marking.  For every tag function and fault combination. *)
+(* A response authenticated only by revoked keys can do nothing but complete those revocations. *)
 Theorem revoked_only_completes_revocation :
   forall (tag : key -> N) live cfg d now keys sigs fl ksk2 tombs2,
     prefetch tag live cfg d now fl = Some (ksk2, tombs2) ->
@@ -116,8 +31,6 @@ Theorem revoked_only_completes_revocation :
 Proof. exact revoked_only_completes_revocation_lemma. Qed.
 Print Assumptions revoked_only_completes_revocation.
 
-(* ... and that verdict means what it says: no valid signature under a trusted non-revoked key,
-   a valid one under the revoked form of a trusted key *)
 Theorem revoked_only_means :
   forall (tag : key -> N) cand keys sigs,
     authenticate tag cand keys sigs = AuthRevOnly ->
@@ -126,27 +39,26 @@ Theorem revoked_only_means :
 Proof. exact auth_revonly_spec. Qed.
 Print Assumptions revoked_only_means.
 
-(* FULL STATEMENT (new_key_needs_30d): a key K that is live and was never configured was present,
-   for more than 30 days and in every recorded accepted refresh, in DNSKEY sets fully
-   authenticated by a trusted non-revoked anchor.  Formalised with the monitor of Proofs_Hist
-   (streak / prom / rec).  REFUTED for colliding tags (new_key_needs_30d_refuted above, F4);
-   proved for every history in which no published key collides with K's tag — all responses,
-   faults, crash prefixes, restarts, configurations, non-decreasing clocks, fresh directory. *)
-Theorem new_key_needs_30d_partial :
-  forall (tag : key -> N) (K : key) (cfg : list key) (tombs : option tmap) (T0 : Z) (h : list event),
-    Forall (fun e => nocoll tag K (ev_keys e)) h ->
+(* new_key_needs_30d — FULL STATEMENT, no hypothesis on the tag function (presence is by key
+   material since 1f61a03).  For every key K, configuration, tombstone file content, start-up read
+   fault, and every history from a fresh directory (responses, read/write faults, crashes after any
+   prefix, restarts with any configuration and start-up fault) with non-decreasing clocks:
+   K in the live set  ==>  K was in the configuration at some (re)start, or K's material was in a
+   fully authenticated response while its presence streak — over all recorded fully authenticated
+   refreshes — was older than 30 days.  (Reading: a refresh whose state file did not land counts
+   neither for nor against the streak.)  The only hypothesis is the clock. *)
+Theorem new_key_needs_30d :
+  forall (tag : key -> N) (K : key) (cfg : list key) (tombs : option tmap) (tr0 : tread) (T0 : Z) (h : list event),
     mono T0 h ->
-    let s0 := mk_sys cfg cfg (mk_disk None tombs) in
+    let d0 := mk_disk None tombs in
+    let s0 := mk_sys (restart_live cfg d0 tr0) cfg d0 in
     let M0 := mk_mon None false (key_mem K cfg) in
     let M := snd (monitor tag K s0 h M0) in
     In K (s_live (exec tag s0 h)) -> m_rec M = true \/ m_prom M = true.
-Proof. exact new_key_needs_30d_partial_lemma. Qed.
-Print Assumptions new_key_needs_30d_partial.
+Proof. exact new_key_needs_30d_lemma. Qed.
+Print Assumptions new_key_needs_30d.
 
-(* the one-run rule behind it, for every tag function: a key leaves a fully authenticated run
-   trusted only if it was trusted before the fetch or its AddPend entry is older than 30 days
-   and its TAG is in the response; pending entries are kept only if their TAG is in the
-   response, new ones are keys of the response stamped now *)
+(* the one-run rule behind it *)
 Theorem new_key_needs_30d_step :
   forall (tag : key -> N) live cfg d now keys sigs fl ksk2 tombs2,
     prefetch tag live cfg d now fl = Some (ksk2, tombs2) ->
@@ -155,23 +67,75 @@ Theorem new_key_needs_30d_step :
     let fm := fetched_map tag keys in
     (forall k, In k (r_live r) ->
        In k (trusted_keys ksk2) \/
-       exists t a, In (t, a) ksk2 /\ ta_st a = SAddPend /\ ta_key a = k /\ lookup t fm <> None /\ (now - ta_fs a > hold_add)%Z) /\
+       exists t a, In (t, a) ksk2 /\ ta_st a = SAddPend /\ ta_key a = k /\ fm_has fm t a = true /\ (now - ta_fs a > hold_add)%Z) /\
     (forall s5 t a', In (WState s5) (r_writes r) -> In (t, a') s5 ->
        (is_trusted_st a' = true ->
           (exists a, In (t, a) ksk2 /\ is_trusted_st a = true /\ ta_key a = ta_key a') \/
-          exists a, In (t, a) ksk2 /\ ta_st a = SAddPend /\ ta_key a = ta_key a' /\ lookup t fm <> None /\ (now - ta_fs a > hold_add)%Z) /\
+          exists a, In (t, a) ksk2 /\ ta_st a = SAddPend /\ ta_key a = ta_key a' /\ fm_has fm t a = true /\ (now - ta_fs a > hold_add)%Z) /\
        (ta_st a' = SAddPend ->
-          (In (t, a') ksk2 /\ lookup t fm <> None) \/
+          (In (t, a') ksk2 /\ fm_has fm t a' = true) \/
           (lookup t fm = Some (ta_key a') /\ ta_fs a' = now))).
 Proof. exact full_run_origin. Qed.
 Print Assumptions new_key_needs_30d_step.
 
-(* missing_90d: in a fully authenticated run whose response does not revoke it, a trusted anchor
-   stays in the live set when it is still published (by tag) — a Missing one returns to Valid —
-   and when it disappeared: Valid becomes Missing with the clock started now, Missing stays for
-   at most 90 days (hold_rem = 2160 h).  Needs one of the two writes to work (otherwise the
-   publication rule keeps the pre-fetch set or fails closed).  The upper bound (removal after
-   90 days) is covered by correspondence only. *)
+(* revocation_permanent — for the repaired code, with NO hypothesis on faults, tag function,
+   configurations, crash points or responses.  Once a run (from any state) accepted the
+   revocation of material m and at least one of its file replacements landed (complete run, or
+   crash after k >= 1 replacements), then after EVERY later event:
+     * the disk still records it (tombstone, or StateRevoked/Removed marker), and
+     * a key of material m is in the live set ONLY IF that event was a (re)start whose
+       configuration lists the key while the tombstone file does not hold m.
+   So: never after a completed AutoTA run; never after a restart once the tombstone landed;
+   what is still needed for the full statement "never again" is exactly
+   "the tombstone write has succeeded at least once since" — the residual window is
+   revocation_permanent_refuted below (reproduced on the Go code, listed as known). *)
+Theorem revocation_permanent :
+  forall (tag : key -> N) (m : N) (s : sys) now fe fl,
+    In m (r_revoked (run_of tag s now fe fl)) ->
+    forall s1,
+    ((s1 = step tag s (ERun now fe fl) /\ r_writes (run_of tag s now fe fl) <> []) \/
+     (exists k cfg' tr, s1 = step tag s (ECrash now fe fl k cfg' tr) /\ firstn k (r_writes (run_of tag s now fe fl)) <> [])) ->
+    forall h e,
+      let sb := exec tag s1 h in
+      let s' := step tag sb e in
+      durable m (s_disk s') /\
+      (forall key, In key (s_live s') -> k_mat key = m ->
+         (exists cfg' tr, (e = ERestart cfg' tr \/ exists now' fe' fl' k, e = ECrash now' fe' fl' k cfg' tr) /\
+                          In key cfg' /\ ~ durable_tomb m (s_disk s'))).
+Proof. exact revocation_permanent_lemma. Qed.
+Print Assumptions revocation_permanent.
+
+(* residual: tombstone write failed, marker landed, restart with the key still configured *)
+Theorem revocation_permanent_refuted :
+  exists tag s now fe fl cfg' key,
+    In 1 (r_revoked (run_of tag s now fe fl)) /\ length (r_writes (run_of tag s now fe fl)) = 1%nat /\
+    let s' := exec tag (step tag s (ERun now fe fl)) [ERestart cfg' TROk] in
+    In key (s_live s') /\ k_mat key = 1 /\
+    ~ In key (s_live (step tag s' (ERun (now + 1)%Z FErr no_faults))).
+Proof. exact revocation_permanent_refuted_marker_only_window. Qed.
+Print Assumptions revocation_permanent_refuted.
+
+(* both writes fail in a run that accepted a revocation: the trust set is cleared *)
+Theorem dual_write_failure_fails_closed :
+  forall (tag : key -> N) live cfg d now fe fl,
+    f_twrite fl = true -> f_swrite fl = true ->
+    let r := autota tag live cfg d now fe fl in
+    r_revoked r <> [] -> r_live r = [] /\ r_disk r = d /\ r_writes r = [].
+Proof. exact dual_write_failure_fails_closed_lemma. Qed.
+Print Assumptions dual_write_failure_fails_closed.
+
+(* a revocation store that exists but cannot be read (tombstone file corrupt or unreadable, state
+   file corrupt or unreadable): trust set cleared, nothing written; and at start-up the same for the
+   tombstone file *)
+Theorem corrupt_tombstones_fails_closed :
+  forall (tag : key -> N) live cfg d now fe fl,
+    f_tread fl <> TROk \/ f_sread fl = true ->
+    let r := autota tag live cfg d now fe fl in
+    r_live r = [] /\ r_disk r = d /\ r_writes r = [] /\ r_out r = OPersistence.
+Proof. exact unreadable_store_fails_closed_lemma. Qed.
+Print Assumptions corrupt_tombstones_fails_closed.
+
+(* missing_90d *)
 Theorem missing_90d :
   forall (tag : key -> N) live cfg d now keys sigs fl ksk2 tombs2 t a,
     prefetch tag live cfg d now fl = Some (ksk2, tombs2) ->
@@ -180,7 +144,7 @@ Theorem missing_90d :
     lookup t ksk2 = Some a -> is_trusted_st a = true ->
     (forall t' k, lookup t' fm = Some k -> is_rev k = true -> same_except_revoke (ta_key a) k = false) ->
     (f_twrite fl = false \/ f_swrite fl = false) ->
-    (lookup t fm = None -> ta_st a = SMissing -> (now - ta_fs a <= hold_rem)%Z) ->
+    (fm_has fm t a = false -> ta_st a = SMissing -> (now - ta_fs a <= hold_rem)%Z) ->
     let r := autota tag live cfg d now (FResp keys sigs) fl in
     In (ta_key a) (r_live r) /\
     forall s5, In (WState s5) (r_writes r) -> lookup t s5 = Some (after_refresh now fm t a).
